@@ -43,7 +43,7 @@ SITE = {"M_bfgs": "tf_pwa/fit.py fit_scipy BFGS/CG", "M_lbfgsb": "tf_pwa/fit.py 
 R2r = "A->R_BD.CR_BD->B.D_total_0r"; R2i = "A->R_BD.CR_BD->B.D_total_0i"
 R3r = "A->R_CD.BR_CD->C.D_total_0r"; R3i = "A->R_CD.BR_CD->C.D_total_0i"
 
-CSETS = ["free", "fixed", "tied", "tied_neg", "bounds", "bound0", "gauss"]
+CSETS = ["free", "fixed", "tied", "tied_neg", "tied_phase_neg", "bounds", "bound0", "gauss"]
 
 
 def branch_of(method):
@@ -73,6 +73,11 @@ def config_dict(cset):
         # the head of the tie group alone
         constr["var_equal"] = [[R2r, R3r]]
         truth = {R2r: -0.7, R2i: 0.7, R3i: -1.1}
+    elif cset == "tied_phase_neg":
+        # only the PHASES are tied (independent radii) and the head of the tie has a radius that the data want NEGATIVE:
+        # flipping it (r -> |r|, phi -> phi + pi) would drag the other coupling's phase along
+        constr["var_equal"] = [[R2i, R3i]]
+        truth = {R2r: -0.8, R2i: 0.7, R3r: 0.6}
     elif cset == "bound0":
         # one-sided range whose finite end is exactly 0, and ACTIVE: the data are generated with the phase at +1.1, the range is (-inf, 0]
         constr["var_range"] = {R3i: [None, 0]}
@@ -83,8 +88,11 @@ def config_dict(cset):
         part["R_BC"].update({"float": "mg", "mass_min": 0.4, "mass_max": 0.6, "width_min": 0.01})
         # the upper bound of R_BD_mass (0.58) excludes the value the data were generated with (0.6): the bound is ACTIVE
         part["R_BD"].update({"float": "m", "mass_max": 0.58})
+        # width floats while the mass stays at its configured value ("float: g" alone); the data are generated with a width
+        # (0.075) that differs from the configured one (0.06), so a reload that drops the fitted width is visible
+        part["R_CD"].update({"float": "g", "width_min": 0.01, "width_max": 0.3})
         constr["var_range"] = {R3r: [-2.0, -0.1]}
-        truth = {R2r: 0.8, R2i: 0.7, R3r: -0.6, R3i: -1.1 + math.pi, "R_BC_mass": 0.5, "R_BC_width": 0.05, "R_BD_mass": 0.6}
+        truth = {R2r: 0.8, R2i: 0.7, R3r: -0.6, R3i: -1.1 + math.pi, "R_BC_mass": 0.5, "R_BC_width": 0.05, "R_BD_mass": 0.6, "R_CD_width": 0.075}
         start = dict(truth, R_BD_mass=0.57)
     elif cset == "gauss":
         part["R_BC"].update({"float": "m", "gauss_constr": {"m": 0.01}})
